@@ -169,6 +169,13 @@ impl Ctx {
         i % self.nshards == self.shard
     }
 
+    /// for whole case groups under reduced budgets: does group number `i` belong to this shard?  When the groups
+    /// are striped over the shards anyway (the default) every group is offered to `group()`, which does the
+    /// distribution; filtering twice would leave most groups to no shard at all.
+    pub fn mine_group(&self, i: usize) -> bool {
+        self.stripe || self.mine(i)
+    }
+
     /// Run a named case group: own PRNG stream, journalled before it starts, panics that
     /// escape it are recorded as violations (every intentional out-of-contract call is
     /// wrapped by the monitor itself, so an escaping panic means the library panicked
@@ -207,6 +214,65 @@ impl Ctx {
         }
         let n = self.evals - before;
         self.groups.push((name.to_string(), n));
+    }
+
+    /// Run a group in every process regardless of striping (used for workloads that must come first
+    /// in the process, or that every sanitizer shard has to see).
+    pub fn group_everywhere(&mut self, name: &str, f: impl FnOnce(&mut Ctx)) {
+        let st = std::mem::replace(&mut self.stripe, false);
+        self.group(name, f);
+        self.stripe = st;
+    }
+
+    /// Concurrent first use.  `threads` threads are released together and each evaluates `f(t)`
+    /// (t = its index); after they have been joined, `f(t)` is evaluated again on the calling
+    /// thread.  `f` must be a deterministic function of `t`, so the two results have to be equal,
+    /// and no thread may panic.  Call this before anything else in the process has used the APIs
+    /// in `f`: the point is the *first* use of whatever process-wide state they keep (lazily built
+    /// tables, caches).  Under Miri the data-race detector sees every unsynchronised pair of
+    /// accesses between the threads; natively a torn or half-initialised table shows as a wrong
+    /// result.  Runs in every process (never striped away).
+    pub fn first_use_race<T>(&mut self, threads: usize, f: impl Fn(usize) -> T + Sync)
+    where
+        T: PartialEq + std::fmt::Debug + Send,
+    {
+        self.group_everywhere("first-use-race", |ctx| {
+            let barrier = std::sync::Barrier::new(threads);
+            let f = &f;
+            let b = &barrier;
+            let conc: Vec<Result<T, String>> = std::thread::scope(|sc| {
+                let hs: Vec<_> = (0..threads)
+                    .map(|t| {
+                        sc.spawn(move || {
+                            b.wait();
+                            f(t)
+                        })
+                    })
+                    .collect();
+                hs.into_iter().map(|h| h.join().map_err(|e| crate::util::panic_message(&e))).collect()
+            });
+            for (t, r) in conc.into_iter().enumerate() {
+                ctx.eval();
+                match r {
+                    Ok(v) => {
+                        let again = f(t);
+                        if v != again {
+                            let sig = format!("{}|first-use-race|result-differs", ctx.prop);
+                            ctx.viol(&sig, format!("thread {t} of {threads} racing on first use got {:?}; the same calls afterwards give {:?}", v, again));
+                        }
+                    }
+                    Err(pm) => {
+                        let sig = format!("{}|first-use-race|thread-panicked", ctx.prop);
+                        ctx.viol(&sig, format!("thread {t} of {threads} racing on first use panicked: {pm}"));
+                    }
+                }
+            }
+            if !ctx.lite {
+                ctx.cell(format!("first-use-race/{threads}-threads"));
+            }
+            ctx.nontrivial_s("first-use-race");
+            ctx.count("first-use-race-threads", threads as u64);
+        });
     }
 
     /// under reduced budgets: has this group used up its evaluation allowance?
@@ -302,6 +368,7 @@ impl Ctx {
             "notes": self.notes,
             "groups": self.groups,
             "groups_left_to_other_shards": self.skipped_groups,
+            "exact_fit_operands": {"built": crate::util::exact_fit_stats().0, "without_spare_words": crate::util::exact_fit_stats().1},
             "violations": viols,
             "wall_s": wall,
         });
